@@ -94,6 +94,7 @@ type Call struct {
 	Items  []Unit              `json:"items"`
 	W      int                 `json:"w"`
 	States map[string][]string `json:"states,omitempty"` // subject key -> "ns/entry=value" it was given
+	Fail   bool                `json:"fail,omitempty"`   // the handler returned an error for this request (Decide)
 }
 
 // RefHandler is the reference handler. In normal mode a keyed event writes
@@ -105,6 +106,10 @@ type RefHandler struct {
 	// OnCall runs synchronously inside ProcessEventBatch (on the operator's
 	// event loop) before the response is returned.
 	OnCall func(c *Call)
+	// Decide (optional) runs first, with the context of the request: a non-nil
+	// error is what ProcessEventBatch returns (the request is recorded with
+	// Fail = true, OnCall still runs, nothing is applied).
+	Decide func(ctx context.Context, c *Call) error
 
 	mu    sync.Mutex
 	calls []*Call
@@ -159,11 +164,20 @@ func (h *RefHandler) ProcessEventBatch(ctx context.Context, req *handlerpb.Proce
 			}
 		}
 	}
+	var failure error
+	if h.Decide != nil {
+		if failure = h.Decide(ctx, c); failure != nil {
+			c.Fail = true
+		}
+	}
 	h.mu.Lock()
 	h.calls = append(h.calls, c)
 	h.mu.Unlock()
 	if h.OnCall != nil {
 		h.OnCall(c)
+	}
+	if failure != nil {
+		return nil, failure
 	}
 	return resp, nil
 }
@@ -184,12 +198,21 @@ type JobRec struct {
 	proto.NoopJob
 	// OnAck runs synchronously inside OperatorCheckpointComplete.
 	OnAck func(ck *snapshotpb.OperatorCheckpoint)
+	// Check (optional) runs first, with the context of the report: a non-nil
+	// error is returned to the operator and the report is NOT recorded (the job
+	// never received it, as with a connect client whose ctx is done).
+	Check func(ctx context.Context, ck *snapshotpb.OperatorCheckpoint) error
 
 	mu   sync.Mutex
 	acks []*snapshotpb.OperatorCheckpoint
 }
 
 func (j *JobRec) OperatorCheckpointComplete(ctx context.Context, req *snapshotpb.OperatorCheckpoint) error {
+	if j.Check != nil {
+		if err := j.Check(ctx, req); err != nil {
+			return err
+		}
+	}
 	j.mu.Lock()
 	j.acks = append(j.acks, req)
 	j.mu.Unlock()
@@ -288,8 +311,21 @@ func (o *Op) Stop() {
 	o.Op.Halt()
 	o.cancel()
 	select {
-	case <-o.done:
+	case err := <-o.done:
+		o.done <- err // Stop may be called again
 	case <-time.After(2 * time.Second):
+	}
+}
+
+// WaitStopped reports whether Start has returned (the operator shut itself
+// down, e.g. because its event loop failed), waiting up to d for it.
+func (o *Op) WaitStopped(d time.Duration) bool {
+	select {
+	case err := <-o.done:
+		o.done <- err // keep it for Stop
+		return true
+	case <-time.After(d):
+		return false
 	}
 }
 
